@@ -521,6 +521,13 @@ def rule_W_HITPURE(ctx, d, paths):
 
 def rule_W_STAT(ctx, d, paths):
     K = d.K()
+    if d.stats is None and getattr(d, 'stats_shared', None) is not None:
+        ctx.ob('W-STAT', d.name + ' counters per function', False)
+        ctx.fail('W-STAT', d.qual + '.__call__', 'statistics vector is decorator state %s' % render(d.stats_shared),
+                 'the hit/miss/load counters reported by info() live on the decorator object (%s) instead of being created for each decorated function: '
+                 'two functions decorated with the same decorator object share one set of counters, so info() of one counts calls of the other and '
+                 'clear() of one zeroes the other' % render(d.stats_shared), where(d, d.call_fi.node.lineno))
+        return
     if d.stats is None or len(d.stat_index) < 3:
         raise AnalysisError('%s: cannot resolve the statistics vector through info()' % d.qual)
     nocache = pinned_maxsize(d) == 0
@@ -972,6 +979,36 @@ def pol_lru(ctx, d, paths):
             ctx.ob('W-POL-LRU', None, ok)
             if not ok:
                 ctx.fail('W-POL-LRU', wq(d), 'compaction: ' + why[:60], why, where(d, drv[0][1].line), render_path(o))
+    # compaction written as an ordered de-duplication: unique = dict.fromkeys(queue); queue.clear(); queue.extend(unique)
+    for o in paths:
+        if o.kind != RETURN:
+            continue
+        evs = o.st.events
+        for i, e in enumerate(evs):
+            if not (e.kind == 'BK' and e.args[0] == Q and e.args[1] in (C('extend'), C('extendleft')) and len(e.args) > 2):
+                continue
+            dd = [t for t in subterms(e.args[2]) if t[0] == 'dedupe' and t[1] == Q]
+            if not dd:
+                continue
+            side = dd[0][2]
+            rev = e.args[2][0] == 'call' and libname(e.args[2][1]) == 'reversed'
+            # the survivors of dict.fromkeys are ordered by their FIRST occurrence seen from `side`; the occurrence that must survive is the
+            # most recent one, i.e. the first seen from the recent end, and the rebuilt queue must again have the most recent key at that end
+            recent_side = 'right' if end == 'append' else 'left'
+            newest_first = (side == recent_side)          # survivors listed newest -> oldest
+            seq_newest_first = newest_first != rev         # order in which they are fed to extend / extendleft
+            # extend puts the first fed element leftmost; extendleft puts the first fed element rightmost
+            leftmost_is_newest = seq_newest_first if e.args[1] == C('extend') else (not seq_newest_first)
+            ok = newest_first and (leftmost_is_newest == (recent_side == 'left'))
+            cleared = any(x.kind == 'BK' and x.args[0] == Q and x.args[1] == C('clear') for x in evs[:i])
+            ok = ok and cleared
+            ctx.ob('W-POL-LRU', None, ok)
+            if not ok:
+                ctx.fail('W-POL-LRU', wq(d), 'compaction by de-duplication keeps the wrong occurrence',
+                         'the recency queue is compacted with dict.fromkeys over the queue read from the %s: every key keeps its %s position, so after a '
+                         'compaction the next overflow evicts a recently used entry instead of the least recently used one' % (
+                             'old end' if not newest_first else 'recent end (but is rebuilt in reverse)', 'oldest' if not newest_first else 'wrong'),
+                         where(d, e.line), render_path(o))
     # the compaction iterable itself: filterfalse(refcount.__contains__, iter(queue.pop, sentinel))
     comp = find_compaction_iter(d)
     ctx.ob('W-POL-LRU', d.name + ' compaction iterable', comp is not False)
@@ -1003,9 +1040,9 @@ def find_compaction_iter(d):
 
 def pol_mru(ctx, d, paths):
     K = d.K()
-    qs = [b for b in d.bk if b[2] == 'deque']
+    qs = [b for b in d.bk if b[2] in ('deque', 'odict')]
     if len(qs) != 1:
-        raise AnalysisError('%s: MRU bookkeeping (one deque) not recognised' % d.qual)
+        raise AnalysisError('%s: MRU bookkeeping (one deque or ordered dict) not recognised' % d.qual)
     Q = qs[0]
     for o in paths:
         if o.kind != RETURN:
@@ -1076,6 +1113,9 @@ def lfu_victim_source(term, N):
 
 
 def has_items_view(src, N):
+    # a filtered comprehension over the items may leave out lower counts (and may be empty although the counter is not)
+    if contains_term(src, lambda x: x[0] == 'comp' and len(x) > 3):
+        return False
     return contains_term(src, lambda x: x[0] == 'bkview' and x[1] == N and x[2] == 'items')
 
 
@@ -1171,7 +1211,7 @@ class PlainModel(Model):
         return None
 
 
-def rule_W_NEW(ctx, d):
+def rule_W_NEW(ctx, d, parts=('dispatch', 'forward'), only=None):
     init = d.ci.methods.get('__init__')
     new = d.ci.methods.get('__new__')
     eng = Engine(PlainModel(d.module), unroll=1)
@@ -1208,7 +1248,7 @@ def rule_W_NEW(ctx, d):
         for e in o.st.events:
             if e.kind == 'BRANCH':
                 tested.append(e.args[0])
-    for p in sorted(dep):
+    for p in (sorted(dep) if 'dispatch' in parts else []):
         pos = iparams.index(p) - 1 if p in iparams else None
         ok = False
         why = ''
@@ -1233,6 +1273,81 @@ def rule_W_NEW(ctx, d):
         ctx.ob('W-NEW', '%s.%s' % (d.name, p), ok)
         if not ok:
             ctx.fail('W-NEW', new.qual, 'dispatch ignores %s' % ('/'.join(missing) if p not in nparams else p), why, where(d, new.node.lineno))
+    # forwarding: a dispatch to a sibling decorator class hands over every setting that class honours
+    va = ('param', na.vararg.arg) if na.vararg else None
+    kw = ('param', na.kwarg.arg) if na.kwarg else None
+    for o in nouts:
+        if o.kind != RETURN or o.val[0] != 'call' or o.val[1][0] != 'lib' or not o.val[1][1].startswith(d.module.rel + '.'):
+            continue
+        tname = o.val[1][1][len(d.module.rel) + 1:]
+        tcis = d.module.classes_by_name.get(tname)
+        if not tcis or '__init__' not in tcis[0].methods:
+            continue
+        tinit = tcis[0].methods['__init__'].node
+        tparams = [a.arg for a in tinit.args.args][1:]
+        pinned = set()
+        for stt in tinit.body:
+            if isinstance(stt, ast.Assign) and len(stt.targets) == 1 and isinstance(stt.targets[0], ast.Name) and isinstance(stt.value, ast.Constant):
+                pinned.add(stt.targets[0].id)
+        cargs, ckws = o.val[2], o.val[3]
+        wholesale = (va is not None and ('star', va) in cargs) and (kw is not None and any(k[0] == 'dstar' and k[1] == kw for k in ckws))
+        lost = []
+        if not wholesale:
+            for i, tp in enumerate(tparams):
+                if tp in pinned or tp not in iparams:
+                    continue
+                passed = any(k[0] == 'kw' and k[1] == tp and k[2] == ('param', tp) for k in ckws) or \
+                    (i < len(cargs) and cargs[i] == ('param', tp))
+                if not passed and (only is None or tp in only):
+                    lost.append(tp)
+        if 'forward' not in parts:
+            continue
+        ctx.ob('W-NEW', '%s -> %s forwards settings' % (d.name, tname), not lost)
+        if lost:
+            ctx.fail('W-NEW', new.qual, 'dispatch to %s drops %s' % (tname, ','.join(lost)),
+                     '__new__ hands the construction over to %s but does not forward %s: %s(maxsize=0/None, %s=...) silently falls back to the default %s' % (
+                         tname, ', '.join(lost), d.name, lost[0], lost[0]), where(d, new.node.lineno), render_path(o))
+
+
+def rule_W_STATE(ctx, d, keys=('maxsize', 'purge')):
+    """the configured bound and purge flag are stored as given: on every path of __init__ that fills __state__, state[k] is the constructor
+    parameter k itself, or one constant the class pins k to on all paths (no_cache: maxsize 0).  A value decided at construction time from the
+    run-time condition of the cache (e.g. purge switched off because no archive is attached *yet*) freezes a setting the user can still change
+    through f.archive(...)."""
+    init = d.ci.methods.get('__init__')
+    eng = Engine(PlainModel(d.module), unroll=1)
+    iparams = [a.arg for a in init.node.args.args]
+    outs = eng.run_function(init.node, {}, params={iparams[0]: SELF})
+    seen = {}
+    npaths = 0
+    for o in outs:
+        if o.kind != RETURN:
+            continue
+        sets = [e for e in o.st.events if e.kind == 'SELFSET' and e.args[1] == C('__state__')]
+        if not sets:
+            continue
+        npaths += 1
+        stt = sets[-1].args[2]
+        vals = dict((k[1], v) for k, v in stt[1] if k is not None and is_const(k)) if stt[0] == 'dict' else {}
+        for k in keys:
+            seen.setdefault(k, []).append((vals.get(k), o))
+    if npaths == 0:
+        raise AnalysisError('%s: no path of __init__ fills __state__' % init.qual)
+    for k in keys:
+        vs = seen.get(k, [])
+        distinct = []
+        for v, o in vs:
+            if v not in distinct:
+                distinct.append(v)
+        ok = len(distinct) == 1 and distinct[0] is not None and (distinct[0] == ('param', k) or is_const(distinct[0]))
+        ctx.ob('W-STATE', '%s.%s' % (d.name, k), ok)
+        if not ok:
+            bad = [(v, o) for v, o in vs if v != ('param', k)]
+            v, o = bad[0] if bad else vs[0]
+            ctx.fail('W-STATE', init.qual, 'state %s is not the constructor argument' % k,
+                     '%s.__init__ stores %s = %s on some path instead of the %s the caller passed: the setting is decided from run-time conditions at '
+                     'construction time (e.g. whether an archive is attached yet) and stays frozen when those conditions change' % (d.name, k, render(v) if v else 'nothing', k),
+                     where(d, init.node.lineno), render_path(o))
 
 
 def kw_lookup(x, kw, name):
